@@ -4,7 +4,9 @@ package c06
 import (
 	"fmt"
 	"testing"
+	"time"
 
+	"github.com/cinar/indicator/v2/asset"
 	"github.com/cinar/indicator/v2/strategy"
 	"pgregory.net/rapid"
 	"verif/harness/engine"
@@ -130,8 +132,63 @@ func prop(st sreg.Strat) engine.AnyProp {
 	}
 }
 
+// fieldsProp: the field extraction every strategy starts with, on its own.
+func fieldsProp() engine.AnyProp {
+	type FCase struct {
+		Bars gen.Bars `json:"bars"`
+	}
+	return engine.Prop[FCase]{ID: "C06", Subject: "SnapshotFields",
+		Gen: func(t *rapid.T) FCase {
+			return FCase{Bars: gen.GenBarsOf(t, rapid.IntRange(0, 12).Draw(t, "n"), "walk")}
+		},
+		Check: func(c FCase) engine.Outcome {
+			var o engine.Outcome
+			sn := stub.Snapshots(c.Bars)
+			extract := map[string]func(<-chan *asset.Snapshot) <-chan float64{
+				"open": asset.SnapshotsAsOpenings, "high": asset.SnapshotsAsHighs, "low": asset.SnapshotsAsLows,
+				"close": asset.SnapshotsAsClosings, "volume": asset.SnapshotsAsVolumes,
+			}
+			for _, name := range []string{"open", "high", "low", "close", "volume"} {
+				res := pipe.Run([][]*asset.Snapshot{sn}, pipe.Opts{}, func(cs []<-chan *asset.Snapshot) []<-chan float64 {
+					return []<-chan float64{extract[name](cs[0])}
+				})
+				want := c.Bars.Field(name)
+				if !res.OK() || len(res.Outs[0]) != len(want) {
+					o.Failf("SnapshotsAs(%s) over %d snapshots: %s, %d values", name, len(sn), res.Verdict, len(res.Outs[0]))
+					return o
+				}
+				for i := range want {
+					if res.Outs[0][i] != want[i] {
+						o.Failf("SnapshotsAs(%s): value %d is %v, the snapshot's %s is %v", name, i, res.Outs[0][i], name, want[i])
+						return o
+					}
+				}
+			}
+			dates := pipe.Run([][]*asset.Snapshot{sn}, pipe.Opts{}, func(cs []<-chan *asset.Snapshot) []<-chan time.Time {
+				return []<-chan time.Time{asset.SnapshotsAsDates(cs[0])}
+			})
+			for i := range sn {
+				if !dates.OK() || len(dates.Outs[0]) != len(sn) || !dates.Outs[0][i].Equal(sn[i].Date) {
+					o.Failf("SnapshotsAsDates over %d snapshots: %s, %v", len(sn), dates.Verdict, dates.Outs[0])
+					return o
+				}
+			}
+			distinct := 0
+			for i := range sn {
+				b := c.Bars
+				if b.Open[i] != b.High[i] && b.High[i] != b.Low[i] && b.Low[i] != b.Close[i] && b.Open[i] != b.Close[i] && b.Open[i] != b.Low[i] && b.High[i] != b.Close[i] {
+					distinct++
+				}
+			}
+			o.NonTrivial = distinct >= 2
+			o.Key = fmt.Sprint(c.Bars.Open, c.Bars.High, c.Bars.Low, c.Bars.Close, c.Bars.Volume)
+			return o
+		}}
+}
+
 func props() []engine.AnyProp {
 	var ps []engine.AnyProp
+	ps = append(ps, fieldsProp())
 	for _, st := range sreg.Base() {
 		if st.Rule != nil {
 			ps = append(ps, prop(st))
